@@ -59,7 +59,17 @@ fn allow(parent: Option<&'static str>, ti: usize, level: usize) -> bool {
 
 fn syntax_pairs(ctx: &Ctx) -> Vec<(String, String, Vec<Node>)> {
     let tpls = templates();
-    let forests = tree::enumerate(&tpls, 2, if ctx.quick() { &[1, 2, 2] } else { &[1, 3, 2] }, &allow);
+    // quick: forests of <= 2 top-level statements with <= 2 children each; thorough adds the forests of
+    // <= 3 top-level statements with <= 1 child each (3 x 2 children would be 5e9 forests)
+    let mut forests = tree::enumerate(&tpls, 2, &[1, 2, 2], &allow);
+    if ctx.thorough() {
+        let mut seen: std::collections::BTreeSet<String> = forests.iter().map(|f| tree::scss(f)).collect();
+        for f in tree::enumerate(&tpls, 2, &[1, 3, 1], &allow) {
+            if seen.insert(tree::scss(&f)) {
+                forests.push(f);
+            }
+        }
+    }
     let mut out = Vec::new();
     for f in forests {
         // declarations must be inside a rule somewhere up the chain: wrap top-level forests whose
@@ -345,6 +355,9 @@ const SASS_ONLY: &[&str] = &[
 ];
 
 pub fn run(ctx: &Ctx) {
+    // the watchdog's clock also covers the harness's own oracle work (reference models, DOM enumeration);
+    // the limit is generous so that machine load cannot turn a slow case into a verdict
+    ctx.hang_limit_s.store(300, std::sync::atomic::Ordering::Relaxed);
     // ---- (1) SCSS vs indented on generated trees ---------------------------------------------
     let sub = "scss-vs-sass";
     let pairs = syntax_pairs(ctx);
@@ -358,7 +371,7 @@ pub fn run(ctx: &Ctx) {
             l.evals += 2;
             // one fresh thread per case: thread-local state (the identifier interner) starts empty, and all
             // spellings of the program meet its identifiers in the same order
-            let wss = ["  ", " ", "      "];
+            let wss: &[&str] = if ctx.quick() { &["  "] } else { &["  ", " ", "      "] };
             let (a, b, cs) = fresh_thread(|| {
                 let a = compile(scss, &Cfg::syn(Syn::Scss));
                 let b = compile(sass, &Cfg::syn(Syn::Sass));
@@ -398,7 +411,7 @@ pub fn run(ctx: &Ctx) {
             }
         },
     );
-    ctx.bound(sub, &format!("all statement trees of depth <= 2 ({} children at level 1, 2 at level 2) over a 21-template alphabet (level sub-alphabets 13 / 11 / 3), two independent printers; the indented text also with whitespace-only lines (1, 2, 6 spaces) after every line", ctx.pick(2, 3)), true);
+    ctx.bound(sub, &format!("all statement trees of depth <= 2 (2 children at level 1 and 2 at level 2{}) over a 21-template alphabet (level sub-alphabets 13 / 11 / 3), two independent printers; the indented text also with whitespace-only lines (2 spaces; thorough: 1, 2 and 6) after every line", ctx.pick("", "; thorough: also 3 at level 1 with 1 at level 2")), true);
     if let Some(p) = pairs.get(pairs.len() / 2) {
         ctx.sample(sub, json!({"scss": p.0, "sass": p.1}));
     }
@@ -757,6 +770,171 @@ pub fn run(ctx: &Ctx) {
         );
         ctx.bound(sub, "every sequence of 2 or 3 lines over 7 line kinds (silent comment, loud comment, two silent comments, rule, variable, declaration, @debug) at the top level and inside a rule, in the indented syntax and as SCSS", true);
         ctx.sample(sub, json!({"sass": "// s\n/* l */\n", "scss": "// s\n/* l */\n"}));
+    }
+
+    // ---- (5d) nested @if / @else chains in both syntaxes -----------------------------------------------
+    {
+        let sub = "if-else-nesting";
+        #[derive(Clone)]
+        enum I {
+            D(usize),
+            If(bool, Vec<I>, Option<Vec<I>>),
+        }
+        fn gen(depth: usize, counter: &mut usize) -> Vec<I> {
+            // all nodes of nesting depth <= depth
+            let mut out = vec![I::D(0)];
+            if depth == 0 {
+                return out;
+            }
+            let inner = gen(depth - 1, counter);
+            let mut bodies: Vec<Vec<I>> = inner.iter().map(|x| vec![x.clone()]).collect();
+            if depth == 1 {
+                bodies.push(vec![I::D(0), I::D(1)]);
+            } else {
+                // a declaration before / after a nested @if
+                for x in inner.iter().filter(|x| matches!(x, I::If(..))).take(6) {
+                    bodies.push(vec![I::D(1), x.clone()]);
+                    bodies.push(vec![x.clone(), I::D(1)]);
+                }
+            }
+            for c in [true, false] {
+                for t in &bodies {
+                    out.push(I::If(c, t.clone(), None));
+                    for e in bodies.iter().take(if depth == 1 { 3 } else { 8 }) {
+                        out.push(I::If(c, t.clone(), Some(e.clone())));
+                    }
+                }
+            }
+            let _ = counter;
+            out
+        }
+        fn print(n: &I, ind: usize, sass: bool, k: &mut usize, out: &mut String) {
+            let pad = "  ".repeat(ind);
+            match n {
+                I::D(_) => {
+                    *k += 1;
+                    out.push_str(&format!("{}p{}: v{}\n", pad, k, if sass { "" } else { ";" }));
+                }
+                I::If(c, t, e) => {
+                    out.push_str(&format!("{}@if {}{}\n", pad, c, if sass { "" } else { " {" }));
+                    for x in t {
+                        print(x, ind + 1, sass, k, out);
+                    }
+                    match e {
+                        Some(eb) => {
+                            out.push_str(&format!("{}{}\n", pad, if sass { "@else" } else { "} @else {" }));
+                            for x in eb {
+                                print(x, ind + 1, sass, k, out);
+                            }
+                            if !sass {
+                                out.push_str(&format!("{}}}\n", pad));
+                            }
+                        }
+                        None => {
+                            if !sass {
+                                out.push_str(&format!("{}}}\n", pad));
+                            }
+                        }
+                    }
+                }
+            }
+        }
+        let mut cnt = 0;
+        let nodes: Vec<I> = gen(ctx.pick(2, 3), &mut cnt).into_iter().filter(|x| matches!(x, I::If(..))).collect();
+        par(
+            ctx,
+            sub,
+            nodes.len() as u64 * 2,
+            |i| {
+                let mut s2 = String::from("a\n");
+                let mut k = 0;
+                print(&nodes[(i / 2) as usize], 1, true, &mut k, &mut s2);
+                json!({"sass": s2, "followed_by_declaration": i % 2 == 1})
+            },
+            |i, l| {
+                let n = &nodes[(i / 2) as usize];
+                let tail = i % 2 == 1;
+                let (mut sass, mut scss) = (String::from("a\n"), String::from("a {\n"));
+                let (mut k1, mut k2) = (0, 0);
+                print(n, 1, true, &mut k1, &mut sass);
+                print(n, 1, false, &mut k2, &mut scss);
+                if tail {
+                    sass.push_str("  z: y\n");
+                    scss.push_str("  z: y;\n");
+                }
+                scss.push_str("}\n");
+                l.evals += 2;
+                let a = compile(&scss, &Cfg::syn(Syn::Scss));
+                let b2 = compile(&sass, &Cfg::syn(Syn::Sass));
+                l.validated += 1;
+                l.outcome(b2.digest());
+                let same = match (&a, &b2) {
+                    (Outcome::Ok(x), Outcome::Ok(y)) => {
+                        l.nontrivial += 1;
+                        x == y
+                    }
+                    (Outcome::Err(x), Outcome::Err(y)) => x.message == y.message,
+                    _ => false,
+                };
+                if !same {
+                    ctx.violation(sub, &format!("if-else:{}", sass.replace('\n', "|")), "the same @if/@else nesting in SCSS and in the indented syntax compiles differently", json!({"scss": scss, "sass": sass, "scss_result": a.brief(), "sass_result": b2.brief()}));
+                }
+            },
+        );
+        ctx.bound(sub, "every @if [/@else] tree of nesting depth <= 2 (thorough 3) over true/false conditions, bodies of one declaration, two declarations, a nested @if alone / before / after a declaration, with and without a declaration after the outermost @if, inside a rule, in both syntaxes", true);
+        ctx.sample(sub, json!({"sass": "a\n  @if false\n    @if true\n      p1: v\n  @else\n    p2: v\n"}));
+    }
+
+    // ---- (5e) the syntax of a loaded file comes from its extension, whatever the entry's syntax option --
+    {
+        let sub = "mixed-syntax-loads";
+        // library content in the three syntaxes (same meaning)
+        let libs: [(&str, &str); 3] = [("scss", "$t: 1px; @mixin m { q: r; } .lib { a: b; }\n"), ("sass", "$t: 1px\n@mixin m\n  q: r\n.lib\n  a: b\n"), ("css", ".lib { a: b; }\n")];
+        // entries: (syntax, source using the library through rule R)
+        let rules = ["@import \"lib\"", "@use \"lib\" as *", "@use \"lib\"", "@forward \"lib\""];
+        let entries: [(Syn, &str); 2] = [(Syn::Scss, "{R};\n.e { c: d; }\n"), (Syn::Sass, "{R}\n.e\n  c: d\n")];
+        let n = (libs.len() * rules.len() * entries.len() * 2) as u64;
+        par(
+            ctx,
+            sub,
+            n,
+            |i| json!({"index": i}),
+            |i, l| {
+                let i = i as usize;
+                let (lext, lsrc) = libs[i % 3];
+                let rule = rules[(i / 3) % 4];
+                let (esyn, etpl) = entries[(i / 12) % 2];
+                let explicit = i / 24 == 1; // syntax given through the option, or derived from the entry's extension
+                let ename = if esyn == Syn::Scss { "e.scss" } else { "e.sass" };
+                let mut fs = MemFs::new();
+                fs.add(ename, &etpl.replace("{R}", rule));
+                fs.add(&format!("_lib.{}", lext), lsrc);
+                let cfg = Cfg { syntax: if explicit { Some(esyn) } else { None }, ..Cfg::default() };
+                l.evals += 2;
+                let got = compile_path(ename, &cfg, &Env { fs: &fs, logger: &grass_compiler::NullLogger });
+                // twin: the library in the entry's own syntax (plain-CSS libraries: SCSS reads CSS)
+                let mut fs2 = MemFs::new();
+                fs2.add(ename, &etpl.replace("{R}", rule));
+                let twin_ext = if lext == "css" { "css" } else if esyn == Syn::Scss { "scss" } else { "sass" };
+                fs2.add(&format!("_lib.{}", twin_ext), libs.iter().find(|x| x.0 == twin_ext).unwrap().1);
+                let want = compile_path(ename, &Cfg { syntax: None, ..Cfg::default() }, &Env { fs: &fs2, logger: &grass_compiler::NullLogger });
+                l.validated += 1;
+                l.outcome(got.digest());
+                let same = match (&got, &want) {
+                    (Outcome::Ok(x), Outcome::Ok(y)) => {
+                        l.nontrivial += 1;
+                        x == y
+                    }
+                    (Outcome::Err(x), Outcome::Err(y)) => x.message == y.message,
+                    _ => false,
+                };
+                if !same {
+                    ctx.violation(sub, &format!("mixed-syntax:{}:{}:{}:{}", esyn.name(), lext, rule, explicit), &format!("an entry in {} syntax ({}) loading _lib.{} gives {}; with the library written in the entry's syntax it gives {}", esyn.name(), if explicit { "syntax option set" } else { "from the extension" }, lext, got.brief(), want.brief()), json!({"files": fs.json()}));
+                }
+            },
+        );
+        ctx.bound(sub, "entry in SCSS / indented syntax (syntax from the option or from the extension) x library in .scss / .sass / .css x @import / @use as * / @use / @forward: the result equals the one with the library written in the entry's own syntax", true);
+        ctx.sample(sub, json!({"entry": "e.sass with the indented-syntax option", "library": "_lib.scss"}));
     }
 
     // ---- (5b) whitespace and comments inside parentheses ---------------------------------------------
